@@ -69,7 +69,10 @@ def make_pool(r, kind, n):
     pool = []
     if kind == "num":
         pool = [("int", 2**53), ("int", 2**53 + 1), ("dec", float(2**53)), ("int", 1), ("dec", 1.0),
-                ("dec", -0.0), ("int", 0), ("dec", 0.1), ("int", 10**30), ("dec", 1e30), ("int", -1)]
+                ("dec", -0.0), ("int", 0), ("dec", 0.1), ("int", 10**30), ("dec", 1e30), ("int", -1),
+                # ints beyond the range of a double (no conversion of the int may be attempted), next to the largest doubles
+                ("int", 10**400), ("int", -10**400), ("int", 2**1024), ("int", 2**1024 - 1), ("dec", 1.7976931348623157e308), ("dec", -1.7976931348623157e308),
+                ("int", 2**1023), ("dec", float(2**1023)), ("dec", 5e-324)]
     if kind == "str":
         pool = [("str", ""), ("str", "a"), ("str", "a b"), ("str", "a'"), ("str", "a!"), ("str", "'"),
                 ("str", "a\\"), ("str", "a\t"), ("str", "ab"), ("str", "a'b"), ("str", "a~"),
